@@ -11,6 +11,7 @@ pub mod nodeutil;
 pub mod ops;
 pub mod par;
 pub mod props;
+pub mod refeval;
 pub mod snap;
 pub mod util;
 pub mod walk;
